@@ -69,7 +69,7 @@ def bundle_dir(S):
         shutil.rmtree(path, ignore_errors=True)
 
 
-def run_real(S, cfg_kwargs, handlers, workaround_f19=True, path=None):
+def run_real(S, cfg_kwargs, handlers, workaround_f19=False, path=None):
     """handlers: dict with any of init/before_trading/open_auction/handle_bar/after_trading.
     Returns (result, exception)."""
     from rqalpha import run_func
